@@ -19,6 +19,7 @@ TDo(ev) ==
     [] ev.e = "Result"  -> Result(a[1], r[1], r[2])
     [] ev.e = "Msg"     -> Msg(a[1])
     [] ev.e = "Obs"     -> Observe(SeqToSet(a[1]))
+    [] ev.e = "Plant"   -> Plant(a[1], r[1])
     [] ev.e \in {"Env", "Sent", "Connected", "End"} -> UNCHANGED vars
     [] OTHER -> FALSE
 TraceNext ==
